@@ -81,7 +81,7 @@ fn do_payload_checks_case(error_path: bool) {
         run += 1;
     }
     let v0 = len >= 16 && p[10] == 0 && p[11] == 0 && p[12] == 0 && p[13] == 0 && p[14] == 0 && p[15] == 0;
-    kani::assume(!v0 || len % 16 == 0);
+    kani::assume(!v0 || error_path); // 16-byte slot chunking: full_chunkify / full_detect_format
     kani::assume((run > 15) == error_path);
     // composition harness: padding runs up to 3 bytes in the accepted case. With a longer run the padding vector
     // (Vec<&u8>) is reallocated and CBMC reports a dealloc-size failure that appears only together with the
